@@ -15,11 +15,24 @@
 #   part flat    the same operations as plain sequences without any merging (every sequence executed from
 #                scratch, compared at every read and at the end); validates that merging on the key loses nothing
 #                (every final product state of a flat run must be a state the search knows).
+#   part pair    histories over TWO objects: the operand of `+=` / extend() / extend_direct() / `+` / the constructor is
+#                itself an argument-list object (register b) that was driven through every history <= Nb of
+#                {+= [x] for 5 arguments, list(), copy()}; the left side (register a) through every history <= Na;
+#                10 binary operations (a += b, a.extend(b), c = a + b, c = CompilerArgs(compiler, b), c = list + b,
+#                c = a + list, a.extend_direct(b), a += a.copy(), a += a, c = a + a).  The eager reference treats the
+#                operand as the list it denotes.  After the binary operation every object is read: the result must be
+#                the eager sum, the operands must still denote what they denoted.  part pair_then_one_more appends
+#                one further operation (any unary operation on a, b or c, or a second binary operation) before the
+#                reads: later changes to one object must not show in another.
+#   part seqread the other content reads of a MutableSequence - reversed(args) (used by the ninja backend), args[i],
+#                args[-i], args[:] - after every operation sequence <= 2.
 #   part native  to_native() on every argument list <= N over a linker/-isystem alphabet (group markers, default
 #                include directory stripping).
 #
 # Unspecified corners (never compared; counted where they occur):
 #   * len() before a flush (may over-count pending duplicates)          -> counter len_differs_before_flush
+#     (a number, not arguments; every read that yields ARGUMENTS - iteration in either direction, indexing, slices -
+#      is compared, so reversed() failing because of that over-count IS reported)
 #   * the content of an object after to_native() without copy (group markers are written into it)
 #   * a bare `-isystem` that is not followed by a directory operand      -> skipped_unspecified (native part)
 #   (absolute paths given to append_direct/extend_direct are covered by one absolute library path, alone and in
@@ -501,6 +514,258 @@ def flat_chunk(arg):
     return n, unknown, dict(acc.c), acc.v, dict(acc.vn)
 
 
+# ---- pair part: histories over TWO argument-list objects ---------------------------------------------------
+# "dependency ... arguments added in any number of increments": the thing that is added is very often itself an
+# argument-list OBJECT (generate_basic_compiler_args() returns one, dependency/compiler-check arguments are collected
+# in one and then added to the command line under construction).  Its eager meaning as an operand is the list it
+# denotes at that moment, whatever the condition of its queues.
+#   register a : the list under construction     register b : the operand object     register c : result of a `+` / copy-construction
+# One case = (history of a) (history of b) (one binary operation) [one more operation on any register or a second
+# binary operation]; then every register is read (the changed one first) and compared with its reference list:
+# the result with ref_batch(list of a, list of b), the operands with the lists they denoted before (being used as an
+# operand changes nothing, and nothing done to one object afterwards shows in another).
+PAIR_ALPHA = ['-Ia', '-Ib', '-Dx', 'libz.a', '-Wall']      # two front, one back-override, one once-only, one plain
+PAIR_UNARY = [('iadd', (a,)) for a in PAIR_ALPHA] + [('read', ()), ('copy', ())]
+# name -> (text, registers used as operands, register that holds the result)
+PAIR_BIN = collections.OrderedDict([
+    ('iadd_obj', ('a += b', 'ab', 'a')),
+    ('extend_obj', ('a.extend(b)', 'ab', 'a')),
+    ('add_obj', ('c = a + b', 'ab', 'c')),
+    ('init_obj', ('c = CompilerArgs(compiler, b)', 'b', 'c')),
+    ('radd_list_obj', ('c = <the plain list a denotes> + b', 'b', 'c')),
+    ('add_list', ('c = a + <the plain list b denotes>', 'a', 'c')),
+    ('extend_direct_obj', ('a.extend_direct(b)', 'ab', 'a')),
+    # the operand is the object itself / a copy of it: b takes no part (run with the empty history of b only)
+    ('iadd_selfcopy', ('a += a.copy()', 'a', 'a')),
+    ('iadd_self', ('a += a', 'a', 'a')),
+    ('add_self', ('c = a + a', 'a', 'c')),
+])
+PAIR_SOLO = ('iadd_selfcopy', 'iadd_self', 'add_self')
+PAIR_POST = [(r, u) for r in 'abc' for u in PAIR_UNARY] + [('bin', b) for b in PAIR_BIN]
+PAIR_HIST = {}          # depth -> list of histories (tuples of unary operations), shortest first
+
+
+def pair_histories(depth):
+    if depth not in PAIR_HIST:
+        import itertools
+        PAIR_HIST[depth] = [h for n in range(depth + 1) for h in itertools.product(PAIR_UNARY, repeat=n)]
+    return PAIR_HIST[depth]
+
+
+def pair_opname(step):
+    r, o = step
+    if r == 'bin':
+        return PAIR_BIN[o][0]
+    return '%s: %s' % (r, opname(o))
+
+
+def pair_bin(R, M, name, clsname, kinds):
+    """One binary operation on the real registers R and on the reference lists M."""
+    a, b, ma, mb = R['a'], R['b'], M['a'], M['b']
+    if name == 'iadd_obj':
+        R['a'] = operator.iadd(a, b)
+        M['a'] = ref_batch(ma, mb, kinds)
+    elif name == 'extend_obj':
+        a.extend(b)
+        M['a'] = ref_batch(ma, mb, kinds)
+    elif name == 'extend_direct_obj':
+        a.extend_direct(b)
+        M['a'] = ref_step(ma, ('extend_direct', tuple(mb)), kinds)
+    elif name == 'add_obj':
+        R['c'] = a + b
+        M['c'] = ref_batch(ma, mb, kinds)
+    elif name == 'add_list':
+        R['c'] = a + list(mb)
+        M['c'] = ref_batch(ma, mb, kinds)
+    elif name == 'radd_list_obj':
+        R['c'] = list(ma) + b
+        M['c'] = ref_batch(ma, mb, kinds)
+    elif name == 'init_obj':
+        R['c'] = fresh(clsname, b)
+        M['c'] = list(mb)
+    elif name == 'iadd_selfcopy':
+        R['a'] = operator.iadd(a, a.copy())
+        M['a'] = ref_batch(ma, ma, kinds)
+    elif name == 'iadd_self':
+        R['a'] = operator.iadd(a, a)
+        M['a'] = ref_batch(ma, ma, kinds)
+    elif name == 'add_self':
+        R['c'] = a + a
+        M['c'] = ref_batch(ma, ma, kinds)
+    else:
+        raise AssertionError(name)
+
+
+def pair_sum_facts(left, right, observed, kinds, direct):
+    """What the property says about a sum without going through ref_batch: nothing lost, nothing invented, the
+    non-dedupable arguments of both sides in order, left before right."""
+    bad = []
+    have, want = set(observed), set(left) | set(right)
+    for x in sorted(want - have):
+        bad.append(('lost', 'argument %r of %s is absent from the sum' % (x, 'the operand' if x in right else 'the left side')))
+    for x in sorted(have - want):
+        bad.append(('invented', 'argument %r is in neither side' % (x,)))
+    got, lc, rc = collections.Counter(observed), collections.Counter(left), collections.Counter(right)
+    for x in sorted(have & want):
+        if got[x] > lc[x] + rc[x]:
+            bad.append(('invented', 'argument %r occurs %d times, the two sides hold it %d times' % (x, got[x], lc[x] + rc[x])))
+    pl = [x for x in list(left) + list(right) if direct or kinds[x] == PLAIN]
+    op = [x for x in observed if direct or kinds.get(x) == PLAIN]
+    if pl != op:
+        bad.append(('plain-order', 'non-dedupable arguments are %r, the two sides say %r' % (op, pl)))
+    return bad
+
+
+def run_pair(clsname, ha, hb, binop, post, acc):
+    """ha, hb: tuples of unary operations; binop: a name of PAIR_BIN; post: None or a step of PAIR_POST."""
+    kinds = KINDS[clsname]
+    R = {'a': fresh(clsname), 'b': fresh(clsname), 'c': None}
+    M = {'a': [], 'b': [], 'c': None}
+    steps = [('a', o) for o in ha] + [('b', o) for o in hb] + [('bin', binop)] + ([post] if post is not None else [])
+    rep = {'cls': clsname, 'pair': {'a': [list(map(list_or, o)) for o in ha], 'b': [list(map(list_or, o)) for o in hb], 'bin': binop,
+                                    'post': None if post is None else [post[0], post[1] if post[0] == 'bin' else list(map(list_or, post[1]))]}}
+    text = '; '.join(pair_opname(s) for s in steps)
+    changed = None
+    nbin = 0
+    sides = None
+    for r, o in steps:
+        try:
+            if r == 'bin':
+                a, b = R['a'], R['b']
+                uses = PAIR_BIN[o][1]
+                if nbin == 0:
+                    pa, pb = bool(a.pre or a.post), bool(b.pre or b.post)
+                    if 'b' in uses and o != 'add_list':
+                        acc.c['operand_is_object'] += 1
+                        if pb:
+                            acc.c['operand_object_with_pending_queue'] += 1
+                            if b._container:
+                                acc.c['operand_object_with_pending_queue_and_merged_part'] += 1
+                            if b.needs_override_check:
+                                acc.c['operand_object_with_pending_override_check'] += 1
+                            if pa:
+                                acc.c['both_objects_with_pending_queue'] += 1
+                        elif b._container:
+                            acc.c['operand_object_fully_merged'] += 1
+                        else:
+                            acc.c['operand_object_empty'] += 1
+                    elif o in PAIR_SOLO:
+                        acc.c['operand_is_the_object_itself_or_its_copy'] += 1
+                        if pa:
+                            acc.c['self_operand_with_pending_queue'] += 1
+                    sides = (list(M['a']), list(M['a'] if o in PAIR_SOLO else M['b']))
+                pair_bin(R, M, o, clsname, kinds)
+                changed = PAIR_BIN[o][2]
+                nbin += 1
+            else:
+                if R[r] is None:
+                    return False            # no third object yet: not a case
+                R[r], _ = step_real(R[r], [], o)
+                M[r] = ref_step(M[r], o, kinds)
+                changed = r
+        except Exception as e:  # none of these operations may fail
+            acc.viol('C13:%s:pair:%s:exception:%s' % (clsname, binop, type(e).__name__),
+                     '%s raised %r after %s' % (pair_opname((r, o)), e, text), rep)
+            return True
+    acc.c['cases'] += 1
+    acc.c['steps'] += len(steps)
+    res = PAIR_BIN[binop][2]
+    if post is None and binop != 'init_obj' and len(M[res]) < len(sides[0]) + len(sides[1]):
+        acc.c['sum_shorter_than_concatenation(dedup_across_objects)'] += 1
+    then = '' if post is None else ':then-%s' % (post[1] if post[0] == 'bin' else post[0] + '.' + post[1][0])
+    for r in [changed] + [x for x in 'abc' if x != changed]:
+        if R[r] is None:
+            continue
+        try:
+            obs = list(R[r])
+        except Exception as e:
+            acc.viol('C13:%s:pair:%s:exception:%s' % (clsname, binop, type(e).__name__),
+                     'list(%s) raised %r after %s' % (r, e, text), rep)
+            return True
+        acc.c['register_reads'] += 1
+        if obs != M[r]:
+            role = 'result' if r == res else 'operand-changed' if r in PAIR_BIN[binop][1] else 'bystander-changed'
+            acc.viol('C13:%s:pair:%s:%s%s:%s' % (clsname, binop, role, then, diff_class(M[r], obs, kinds)),
+                     'after %s: %s expected %r, observed %r' % (text, r, M[r], obs), rep)
+        elif r == res and post is None and binop != 'init_obj':
+            acc.c['invariant_checks'] += 1
+            for cls_, what in pair_sum_facts(sides[0], sides[1], obs, kinds, binop == 'extend_direct_obj'):
+                acc.viol('C13:%s:pair:%s:invariant:%s' % (clsname, binop, cls_), what + ' after ' + text, rep)
+    return True
+
+
+def pair_chunk(arg):
+    clsname, da, db, with_post, hb_slice = arg
+    acc = Acc()
+    has = pair_histories(da)
+    posts = ([None] + PAIR_POST) if with_post else [None]
+    for hb in hb_slice:
+        for binop in PAIR_BIN:
+            if binop in PAIR_SOLO and hb:
+                continue
+            # the solo operations have only one object to prepare: it gets the longer of the two history bounds
+            for ha in (pair_histories(max(da, db)) if binop in PAIR_SOLO else has):
+                for post in posts:
+                    run_pair(clsname, ha, hb, binop, post, acc)
+    return dict(acc.c), acc.v, dict(acc.vn)
+
+
+# ---- seqread part: the other ways of reading a MutableSequence --------------------------------------------------
+# list(args) goes through __iter__; the backends also read through reversed(args) (last --edition=... wins), args[i]
+# and slices.  Each of them yields ARGUMENTS, so each must yield the eager list.  len() yields a number and stays on
+# the unspecified list (see the header); it is only used here to classify a failure.
+SEQ_READERS = ('reversed', 'index', 'slice')
+
+
+def seq_read(obj, model, reader):
+    if reader == 'reversed':
+        return list(reversed(obj)), list(model[::-1])
+    if reader == 'index':
+        return [obj[i] for i in range(len(model))] + [obj[-i - 1] for i in range(len(model))], list(model) + list(model[::-1])
+    if reader == 'slice':
+        return list(obj[:]), list(model)
+    raise AssertionError(reader)
+
+
+def run_seqread(clsname, ops, reader, acc):
+    kinds = KINDS[clsname]
+    obj, origs, model = fresh(clsname), [], []
+    for op in ops:
+        obj, _ = step_real(obj, origs, op)
+        model = ref_step(model, op, kinds)
+    rep = {'cls': clsname, 'ops': [list(map(list_or, o)) for o in ops], 'reader': reader}
+    text = '; '.join(opname(o) for o in ops)
+    pend = bool(obj.pre or obj.post)
+    nlen = len(obj)
+    over = nlen != len(model)
+    acc.c['reads'] += 1
+    if pend:
+        acc.c['reads_with_pending_queue'] += 1
+        acc.c[reader + '_with_pending_queue'] += 1
+    if over:
+        acc.c['len_differs_before_flush(unspecified,not_compared)'] += 1
+    try:
+        obs, exp = seq_read(obj, model, reader)
+    except Exception as e:
+        acc.viol('C13:%s:seqread:%s:exception:%s%s' % (clsname, reader, type(e).__name__, ':len-overcounts-pending-duplicate' if over else ''),
+                 '%s raised %r after %s (eager list %r, len() said %d)' % (reader, e, text, model, nlen), rep)
+        return
+    if obs != exp:
+        acc.viol('C13:%s:seqread:%s:%s' % (clsname, reader, diff_class(exp, obs, kinds)),
+                 '%s after %s: expected %r, observed %r' % (reader, text, exp, obs), rep)
+
+
+def seqread_chunk(arg):
+    clsname, firsts = arg
+    acc = Acc()
+    for f in firsts:
+        for seq in [(f,)] + [(f, g) for g in range(len(OPS))]:
+            ops = [OPS[i] for i in seq]
+            for reader in SEQ_READERS:
+                run_seqread(clsname, ops, reader, acc)
+    return dict(acc.c), acc.v, dict(acc.vn)
+
+
 # ---- native part --------------------------------------------------------------------------------------------
 NATIVE_ALPHA = []
 
@@ -650,6 +915,76 @@ def main():
     known = None
     FLAT_KNOWN = None
 
+    pair_cases = 0
+    if ck.want('pair'):
+        # (label, history bound of a, history bound of b, with one more operation after the binary one)
+        pplan = [('pair', ck.q(2, 3), ck.q(3, 4), False), ('pair_then_one_more', 1, 3, True)]
+        for clsname in classes:
+            for label, da, db, with_post in pplan:
+                hbs = pair_histories(db)
+                pair_histories(max(da, db))
+                nchunks = max(1, min(len(hbs), NCPU * 8))
+                # histories are ordered shortest first; deal them round-robin so that every chunk costs the same
+                chunks = [(clsname, da, db, with_post, hbs[i::nchunks]) for i in range(nchunks)]
+                tot = collections.Counter()
+                vcount = 0
+                found = []
+                for c, v, vn in pmap(pair_chunk, chunks):
+                    tot.update(c)
+                    vcount += sum(vn.values())
+                    found.extend(v)
+                # shortest case first (the chunks interleave the histories)
+                found.sort(key=lambda x: len(x[2]['pair']['a']) + len(x[2]['pair']['b']) + (x[2]['pair']['post'] is not None))
+                for key, what, rp in found:
+                    ck.violation(key, what, rp)
+                pair_cases += tot['cases']
+                traces += tot['cases']
+                total_trans += tot['steps']
+                ck.part('%s_%s' % (label, clsname), unary_operations=len(PAIR_UNARY), binary_operations=len(PAIR_BIN),
+                        following_operations=len(PAIR_POST) if with_post else 0,
+                        histories_of_a=len(pair_histories(da)), histories_of_b=len(hbs), max_history_a=da, max_history_b=db,
+                        violating=vcount, **{k: v for k, v in sorted(tot.items())})
+                bounds.append('%s_%s: histories <= %d (a) x <= %d (b) over %d unary operations x %d binary operations%s'
+                              % (label, clsname, da, db, len(PAIR_UNARY), len(PAIR_BIN), ' x %d following operations' % len(PAIR_POST) if with_post else ''))
+                if not ck.n_viol:
+                    ck.require(tot['operand_object_with_pending_queue'] > 0, label + ': no operand object had a pending queue')
+                    ck.require(tot['operand_object_with_pending_queue_and_merged_part'] > 0,
+                               label + ': no operand object had additions pending after an earlier read')
+                    ck.require(tot['operand_object_fully_merged'] > 0 and tot['operand_object_empty'] > 0, label + ': operand states missing')
+                    ck.require(tot['both_objects_with_pending_queue'] > 0, label + ': never both objects pending')
+                    ck.require(tot['self_operand_with_pending_queue'] > 0, label + ': a += a never with a pending queue')
+                    ck.require(tot['register_reads'] > 2 * tot['cases'], label + ': operands were not re-read')
+                    if not with_post:
+                        ck.require(tot['sum_shorter_than_concatenation(dedup_across_objects)'] > 0, label + ': no de-duplication across the two objects')
+                    if clsname == 'clike':
+                        ck.require(tot['operand_object_with_pending_override_check'] > 0, label + ': operand never had an override merge pending')
+        ck.sample({'pair_case': [pair_opname(s) for s in [('b', ('iadd', ('-Dx',))), ('b', ('read', ())), ('b', ('iadd', ('-Ia',))),
+                                                           ('a', ('iadd', ('-Ia',))), ('a', ('iadd', ('-Wall',))), ('bin', 'iadd_obj')]],
+                   'expected': {'a': ref_batch(['-Ia', '-Wall'], ['-Ia', '-Dx'], KINDS['clike']), 'b': ['-Ia', '-Dx']}})
+
+    seq_reads = 0
+    if ck.want('seqread'):
+        OPS = FULL
+        for clsname in classes:
+            chunks = [(clsname, [i]) for i in range(len(OPS))]
+            tot = collections.Counter()
+            vcount = 0
+            for c, v, vn in pmap(seqread_chunk, chunks):
+                tot.update(c)
+                vcount += sum(vn.values())
+                for key, what, rp in v:
+                    ck.violation(key, what, rp)
+            seq_reads += tot['reads']
+            traces += tot['reads']
+            total_trans += tot['reads']
+            pending_reads += tot['reads_with_pending_queue']
+            ck.part('seqread_' + clsname, readers=list(SEQ_READERS), operations=len(OPS), max_len=2, violating=vcount,
+                    **{k: v for k, v in sorted(tot.items())})
+            if not ck.n_viol:
+                for rd in SEQ_READERS:
+                    ck.require(tot[rd + '_with_pending_queue'] > 0, 'seqread: %s never ran with a pending queue' % rd)
+        bounds.append('seqread: all sequences <= 2 over %d operations x %d readers' % (len(OPS), len(SEQ_READERS)))
+
     if ck.want('native'):
         import itertools
         d0 = dd[-1]
@@ -687,8 +1022,13 @@ def main():
                    'depth <= D (bounds: %s), for CLikeCompilerArgs and base CompilerArgs bound to the detected gcc; states = distinct '
                    '(real _container, pre, post, needs_override_check [+ same for originals of copies], reference list); every '
                    'transition = replay of the representative history on a fresh real object + one operation; flat part = all '
-                   'sequences <= %d over the same operations without merging, each followed by a read; native part = all lists '
-                   '<= N over 11 linker/-isystem tokens' % (len(FULL), '; '.join(bounds), fdepth),
+                   'sequences <= %d over the same operations without merging, each followed by a read; pair part = every '
+                   '(history of the left object) x (history of the operand object) over {+= [x] (5 arguments), list(), copy()} x '
+                   '10 binary operations whose operand is an argument-list object (+=, extend, extend_direct, +, constructor, '
+                   'list + object, the object itself and its copy) [x one following operation on any object], every object '
+                   're-read afterwards; seqread part = reversed()/indexing/slicing after every sequence <= 2; native part = all '
+                   'lists <= N over 11 linker/-isystem tokens' % (len(FULL), '; '.join(bounds), fdepth),
+              two_object_cases=pair_cases, sequence_protocol_reads=seq_reads,
               exhaustive=True)
 
 
@@ -696,7 +1036,47 @@ def replay(ck):
     d = json.load(open(ck.args.replay))
     clsname = d['cls']
     kinds = KINDS[clsname]
+    if 'pair' in d:
+        p = d['pair']
+        ha = tuple((o[0], tuple(o[1])) for o in p['a'])
+        hb = tuple((o[0], tuple(o[1])) for o in p['b'])
+        post = p.get('post')
+        if post is not None:
+            post = (post[0], post[1] if post[0] == 'bin' else (post[1][0], tuple(post[1][1])))
+        steps = [('a', o) for o in ha] + [('b', o) for o in hb] + [('bin', p['bin'])] + ([post] if post is not None else [])
+        print('replay: class=%s, two objects a and b (both start empty)' % clsname)
+        R = {'a': fresh(clsname), 'b': fresh(clsname), 'c': None}
+        M = {'a': [], 'b': [], 'c': None}
+        try:
+            for r, o in steps:
+                print('  ' + pair_opname((r, o)))
+                if r == 'bin':
+                    pair_bin(R, M, o, clsname, kinds)
+                else:
+                    R[r], _ = step_real(R[r], [], o)
+                    M[r] = ref_step(M[r], o, kinds)
+            for r in 'abc':
+                if R[r] is not None:
+                    print('  %s: expected %r\n     observed %r' % (r, M[r], list(R[r])))
+        except Exception as e:
+            print('  raised %r' % (e,))
+        acc = Acc()
+        run_pair(clsname, ha, hb, p['bin'], post, acc)
+        for k, what, rp in acc.v:
+            print('  STILL VIOLATES %s: %s' % (k, what))
+        print('replay verdict: %s' % ('violation reproduced' if acc.v else 'no violation'))
+        sys.exit(1 if acc.v else 0)
     ops = [(o[0], tuple(o[1])) for o in d['ops']]
+    if 'reader' in d:
+        print('replay: class=%s reader=%s' % (clsname, d['reader']))
+        for o in ops:
+            print('  ' + opname(o))
+        acc = Acc()
+        run_seqread(clsname, ops, d['reader'], acc)
+        for k, what, rp in acc.v:
+            print('  STILL VIOLATES %s: %s' % (k, what))
+        print('replay verdict: %s' % ('violation reproduced' if acc.v else 'no violation'))
+        sys.exit(1 if acc.v else 0)
     print('replay: class=%s init=%r' % (clsname, d.get('init')))
     bad = False
     if 'init' in d:
